@@ -36,9 +36,15 @@ class UCGInitialize(Initialize):
         self._get_num_qubits(params)
         self.register = QuantumRegister(self.num_qubits)
         self.circuit = QuantumCircuit(self.register)
-        self.target_state = 0 if opt_params is None else opt_params.get("target_state")
+        # options that are not given take their defaults (target_state 0, no preservation)
+        self.target_state = 0
+        self.preserve = False
+        if opt_params is not None:
+            if opt_params.get("target_state") is not None:
+                self.target_state = opt_params.get("target_state")
+            if opt_params.get("preserve_previous") is not None:
+                self.preserve = opt_params.get("preserve_previous")
         self.str_target = bin(self.target_state)[2:].zfill(self.num_qubits)[::-1]
-        self.preserve = False if opt_params is None else opt_params.get("preserve_previous")
 
         if label is None:
             label = "ucg_initialize"
